@@ -214,13 +214,13 @@ def c08(tier, seed):
 def built_shapes(tier):
     sh = [(1, [0]), (1, [1]), (1, [2]), (2, [0, 0]), (2, [1, 0]), (2, [0, 1])]
     if tier == 'thorough':
-        sh += [(1, [3]), (2, [1, 1]), (2, [2, 0]), (2, [2, 1]), (3, [0, 0, 0]), (3, [1, 0, 0]), (3, [1, 1, 0])]
+        sh += [(1, [3]), (2, [1, 1]), (2, [2, 0]), (3, [0, 0, 0]), (3, [1, 0, 0])]
     return sh
 
 
 def built_jobs(tier, whats):
     jobs = []
-    L = 1 if tier == 'quick' else 2
+    L = 1
     names = {0: 'structure', 1: 'remove_unreachable', 2: 'minimize', 3: 'prune+minimize', 4: 'minimize+prune', 5: 'char_set_next/str_next'}
     if 0 in whats:
         jobs.append(J('vh_c14_built', [2, 1, 1, 0, 0, 0, 0, 1], 'built automaton structure: 2 states whose labels [0,x] and [x+1,MAX] jointly tile the alphabet', cost=500))
@@ -289,7 +289,7 @@ def RJ(harness, api, n, b, extra, sh, label, **kw):
     return J(harness, [api, n, b, extra] + toks, label, cost=kw.pop('cost', 4 ** (S.nsym(sh) if not isinstance(sh, list) else 4) * 3 ** n), **kw)
 
 
-def regex_shapes(prop, tier, seed, cap_quick=None, cap_thorough=150):
+def regex_shapes(prop, tier, seed, cap_quick=None, cap_thorough=40):
     if tier == 'quick':
         sh = S.quick_list(prop, seed)
         if cap_quick:
@@ -376,8 +376,8 @@ def c19(tier, seed):
 
 
 def c16(tier, seed):
-    prs = S.pairs(tier, seed, 120)
-    ns, b = ((2, 3), 2) if tier == 'quick' else ((1, 2, 3, 4), 2)
+    prs = S.pairs(tier, seed, 40)
+    ns, b = ((2, 3), 2) if tier == 'quick' else ((1, 2, 3), 2)
     ext = 0 if tier == 'quick' else 1
     jobs = []
     for (r, s2) in prs:
@@ -392,7 +392,7 @@ def c16(tier, seed):
 
 
 def c07(tier, seed):
-    shapes = regex_shapes('C07', tier, seed, cap_thorough=60)
+    shapes = regex_shapes('C07', tier, seed, cap_thorough=20)
     costs = S._costs()
     if tier == 'quick':
         # histories multiply the paths of a shape by 64: the history harness takes the cheapest shapes that still contain
@@ -434,7 +434,7 @@ def c07(tier, seed):
 
 
 def c10(tier, seed):
-    shapes = regex_shapes('C10', tier, seed, cap_thorough=100)
+    shapes = regex_shapes('C10', tier, seed, cap_thorough=40)
     ns, tl, b = ((0, 1, 2), 1, 2) if tier == 'quick' else ((0, 1, 2, 3), 1, 2)
     jobs = [RJ('vh_c10_replace', 1, n, b, tl, sh, 'replace_re / replace_re_all pattern %s |s|=%d |t|=%d' % (S.show(sh), n, tl)) for sh in shapes for n in ns]
     # longer subjects for patterns whose matches can overlap a failed partial match (needs |pattern| >= 3, |s| >= 4)
